@@ -28,6 +28,18 @@ CHECKS = {
          'Cut-off decisions within a 2^-20 relative band are accepted either way (rounding); mae through a '
          'rational sqrt enclosure. Trusted: Coq kernel + vm_compute, python harness.',
          'DESIGN.md section 6 (C07)'),
+ 'C08': ('Coq proof (objectives invariant under permutation / scaled by weight scaling / conjugated by translations, '
+         'centres, rotations x scale and reflections; clipping loop commutes with relabelling for every nclip) + '
+         'metamorphic pairs on the implementation + correspondence in Coq on the transformed inputs',
+         'Machine-checked objective-level equivariance theorems for all lists, parameters and transforms, the '
+         'closed-form shift fit at parameter level, and the theorem that the whole sigma-clipping loop commutes '
+         'with any relabelling (fitmask permuted, fit and eff_nclip unchanged). Each run applies permutations, '
+         'weight scalings, uniform weights, other centres, exact lattice similarities (both sets / xy alone) to '
+         'iter_linear_fit with clipping and checks the induced conjugation, and compares the transformed runs '
+         'with the exact model in Coq.',
+         'PARTIAL: uniqueness of the minimiser (needed to turn objective equivariance into parameter equality for '
+         'the general and similarity families) is not proved; covered numerically. Rounding outside the theorems.',
+         'DESIGN.md section 6 (C08/C09)'),
  'C09': ('Coq proof (objectives ignore zero-weight pairs whatever their coordinates; masked sources cannot change '
          'iter_linear_fit (Leibniz equality); harmonic weight law; weights follow sources through concatenation) + '
          'correspondence in Coq of corrupted-coordinate runs and of align_wcs fits with the exact model fit of the '
